@@ -20,7 +20,9 @@ BASE = "pycaption/base.py"
 def run(ctx, report):
     folder = ctx.memo("folder", lambda: Folder(ctx.index))
     report.section("adjust_caption_timing effects", retime_effects, ctx, report)
-    report.section("adjust_caption_timing", retime, ctx, report, folder)
+    report.structural_section("adjust_caption_timing (symbolic form)", "R-GRID: adjust_caption_timing folded on the grid of skews and offsets "
+                              "(merge_fold.retime: the map t*skew+offset, the boundary at zero, order, nodes, every language, aliased "
+                              "captions)", retime, ctx, report, folder)
     report.section("merge", merging, ctx, report)
     from . import merge_fold
     report.section("retiming on a grid", merge_fold.retime, ctx, report)
@@ -70,7 +72,7 @@ def retime(ctx, report, folder):
     from ..core.astutil import closure
     holders = [f for f in closure(ctx.index, top) if any(
         isinstance(n, ast.For) and any(isinstance(s_, ast.Assign) and isinstance(s_.targets[0], ast.Attribute)
-                                       and s_.targets[0].attr == "start" for s_ in n.body) for n in walk_no_nested(f.node))]
+                                       and s_.targets[0].attr == "start" for s_ in walk_no_nested(n)) for n in walk_no_nested(f.node))]
     if len(holders) != 1:
         raise AnalysisError(f"adjust_caption_timing: loop that re-times captions not found ({len(holders)} candidates)")
     fn = holders[0]
@@ -89,7 +91,7 @@ def retime(ctx, report, folder):
     loopvar = None
     for n in walk_no_nested(fn.node):
         if isinstance(n, ast.For) and any(isinstance(s, ast.Assign) and isinstance(s.targets[0], ast.Attribute)
-                                          and s.targets[0].attr == "start" for s in n.body):
+                                          and s.targets[0].attr == "start" for s in walk_no_nested(n)):
             loopvar = n.target.id if isinstance(n.target, ast.Name) else None
             loop = n
     if loopvar is None:
